@@ -238,6 +238,10 @@ def oracle_C03(result):
     for i, s in enumerate(steps):
         op, out, probe = s["op"], s["out"], s["probe"]
         prev = steps[i - 1]["probe"] if i else []
+        # a name that is not a nonempty string of alphanumeric characters and underscores is never accepted
+        if op["op"] in ("AddResource", "AddFactory") and out["k"] == "OK" and \
+                not __import__("re").fullmatch(r"\w+", op["name"]):
+            bad.append(("C03:invalid-name-accepted", f"step {i}: {op['op']} under the name {op['name']!r} succeeded", i))
         # stability of every (type, name) binding of every context that is not closed
         for j, p in enumerate(probe):
             for t, m in maps_of(p).items():
